@@ -55,7 +55,13 @@ func pkgName(dir []string) string {
 	if len(dir) == 0 {
 		return "lay"
 	}
-	return "p" + dir[len(dir)-1]
+	clean := strings.Map(func(r rune) rune {
+		if r >= 'a' && r <= 'z' || r >= '0' && r <= '9' {
+			return r
+		}
+		return '_'
+	}, dir[len(dir)-1])
+	return "p" + clean
 }
 
 // runCase materialises the layout and calls the real LoadSources (inside the worker process).
@@ -193,18 +199,40 @@ func Run(c *core.Ctx, replay string) (*core.Result, error) {
 		}
 		nEnum = len(all)
 		rng := rand.New(rand.NewSource(c.Seed))
-		n := 70
+		n := 260
 		if c.Thorough() {
-			n = 1200
+			n = 2500
+		}
+		// requests whose directories are related (prefix / nesting) are the interesting half
+		var related [][][]string
+		for _, req := range all {
+			if len(req) >= 2 {
+				first := map[string]bool{}
+				for _, d := range req {
+					if len(d) > 0 {
+						first[d[0][:1]] = true
+					}
+				}
+				if len(first) == 1 {
+					related = append(related, req)
+				}
+			}
 		}
 		// witnesses that must always be present (Appendix C of DESIGN.md)
 		must := [][][]string{
 			{{"foo"}, {"foobar"}}, {{"foo1"}, {"foo"}}, {{"foobar", "a"}, {"foo", "a"}}, {{"a", "foo"}, {"a", "foobar"}},
 			{{}}, {{"a"}}, {{"a"}, {"a"}}, {{"foo", "foo1"}, {"foo"}}, {{}, {"foo", "a"}}, {{"foobar"}, {"foobar", "foo"}, {"foo"}},
+			// names with bytes that sort before the path separator: a sibling sorts between a directory and its sub-directories
+			{{"foo"}, {"foo", "bar"}, {"foo-x"}}, {{"api", "v1", "in"}, {"api", "v1.2"}, {"api", "v1"}}, {{"foo", "a"}, {"foo+"}, {"foo"}},
+			{{"foo"}, {"foo-x"}}, {{"foo", "a"}, {"foo-x", "a"}}, {{"foo_x"}, {"foo", "y"}, {"foo"}},
 		}
 		pick := append([][][]string{}, must...)
 		for len(pick) < n {
-			pick = append(pick, all[rng.Intn(len(all))])
+			if len(related) > 0 && rng.Intn(3) != 0 {
+				pick = append(pick, related[rng.Intn(len(related))])
+			} else {
+				pick = append(pick, all[rng.Intn(len(all))])
+			}
 		}
 		for i, req := range pick {
 			lc := lcase{Case: i + 1, Request: req, Rel: rng.Intn(3) == 0, DupSame: rng.Intn(2) == 0}
@@ -265,7 +293,7 @@ func Run(c *core.Ctx, replay string) (*core.Result, error) {
 	res.Evaluations = len(cases)
 	res.TracesVsImpl = len(cases)
 	res.Nontrivial = len(distinct)
-	res.Rule = fmt.Sprintf("requests drawn (seeded) from the %d requests TLC enumerated for Loader.cfg (<=3 files in directories of depth<=2 over {foo,foobar,foo1,a}), plus 10 fixed witnesses (sibling name prefixes, nesting, duplicates, single file), each with random path style (absolute/relative), duplicate style and, for 1 in 6, an error kind (missing / non-Go / type error); non-trivial = more than one file or an error case", nEnum)
+	res.Rule = fmt.Sprintf("requests drawn (seeded) from the %d requests TLC enumerated for Loader.cfg (<=3 files in directories of depth<=2 over {foo,foobar,foo-x,a}), plus 16 fixed witnesses (sibling name prefixes, nesting, duplicates, single file), each with random path style (absolute/relative), duplicate style and, for 1 in 6, an error kind (missing / non-Go / type error); non-trivial = more than one file or an error case", nEnum)
 	res.Extra = map[string]any{"enumerated_by_tlc": nEnum}
 	return res, nil
 }
